@@ -99,6 +99,13 @@ def execIffStart (noAct : Name → Bool) (nTasks : Nat) (tr : List Ev) : Bool :=
 
 /-! #### the report matches what happened (ground truth: the oracle of the case and the action marks) -/
 
+/-- every task `t` depends on after the events `pre`, including what calc tasks delivered although their execution
+    failed (`Run.deliverF` / `RunMon.resAt`): task_dep, setup, calc_dep (transitively through deliveries) and the
+    task_deps / target owners of file_deps delivered -/
+def depsAtF (inp : RunInput) (nTasks : Nat) (pre : List Ev) (t : Name) : List Name :=
+  inp.taskDep t ++ inp.setup t ++ calcsAtF inp pre nTasks (inp.calcDep t) ++
+    ((calcsAtF inp pre nTasks (inp.calcDep t)).flatMap fun c => (resAt inp pre c).tasks ++ (resAt inp pre c).files)
+
 def failedBefore (post : List Ev) (d : Name) : Bool :=
   post.any fun e => match e with | .failure n _ => n = d | _ => false
 def ignoredBefore (post : List Ev) (d : Name) : Bool :=
@@ -114,9 +121,9 @@ def truthOK (inp : RunInput) (nTasks : Nat) (e : Ev) (post : List Ev) : Bool :=
   | .failure n .depErr =>
     if post.any (Ev.isStartOf n) then inp.outcome n == .saveErr
     else inp.statusOf n == .error || !inp.argsOk n
-  | .failure n .unmet => (depsAt inp nTasks post.reverse n).any (failedBefore post)
+  | .failure n .unmet => (depsAtF inp nTasks post.reverse n).any (failedBefore post)
   | .skipUtd n => effStatus inp n == .utd && !inp.ignored n
-  | .skipIgn n => inp.ignored n || (depsAt inp nTasks post.reverse n).any (ignoredBefore post)
+  | .skipIgn n => inp.ignored n || (depsAtF inp nTasks post.reverse n).any (ignoredBefore post)
   | _ => true
 
 def truthOrd (inp : RunInput) (nTasks : Nat) : List Ev → Bool
